@@ -97,10 +97,10 @@ def tlc(module, cfg, metadir, workers=8, timeout=1800, env=None, extra=None, sim
     p = subprocess.run(cmd, cwd=SPEC, env=e, stdout=subprocess.PIPE, stderr=subprocess.STDOUT, text=True)
     out = p.stdout
     info = {"wall_s": round(time.time() - t0, 1), "rc": p.returncode}
-    m = re.search(r"(\d+) states generated, (\d+) distinct states found", out)
-    if m:
-        info["transitions"] = int(m.group(1))
-        info["states"] = int(m.group(2))
+    mm = re.findall(r"^([\d,]+) states generated, ([\d,]+) distinct states found", out, re.M)
+    if mm:
+        info["transitions"] = int(mm[-1][0].replace(",", ""))
+        info["states"] = int(mm[-1][1].replace(",", ""))
     m = re.search(r"The depth of the complete state graph search is (\d+)", out)
     if m:
         info["depth"] = int(m.group(1))
